@@ -883,10 +883,27 @@ class Item:
         if re.search(r"\breturn\b|\?", self.m[bs:be]):
             raise Undecided("R3 filter-map-collect-expr: the closure body leaves early (return / ?) at %s:%d" % (self.relpath, self.line_of(bs)))
         mc = re.match(r"\s*\.\s*collect\s*\(\s*\)", self.m[close + 1:])
-        if not mc:
-            raise Undecided("R3 filter-map-collect-expr: `.collect()` expected after the closure at %s:%d" % (self.relpath, self.line_of(close)))
-        cend = close + 1 + mc.end()
         s0 = self._stmt_start(bo + h.start())
+        if not mc:
+            # the lazy form `let V = RECV.filter_map(|P| BODY);` with V used exactly once afterwards, as `V.collect()`, is evaluated where
+            # it is bound (the definition of filter_map + collect; the closure then runs a few pure statements earlier)
+            ml = re.match(r"let\s+([A-Za-z_]\w*)\s*=\s*", self.text[s0:bo + h.start()])
+            semi = close + 1
+            while self.m[semi].isspace():
+                semi += 1
+            # (a struct-literal field NAME `V: ..` is not a use)
+            uses = list(re.finditer(r"(?<![A-Za-z0-9_.])%s(?![A-Za-z0-9_])(?!\s*:(?!:))" % re.escape(ml.group(1)), self.m[semi:end])) if ml else []
+            if not ml or self.m[semi] != ";" or len(uses) != 1 or not re.match(r"\s*\.\s*collect\s*\(\s*\)", self.m[semi + uses[0].end():]):
+                raise Undecided("R3 filter-map-collect-expr: `.collect()` expected after the closure at %s:%d" % (self.relpath, self.line_of(close)))
+            u = uses[0]
+            mcol = re.match(r"\s*\.\s*collect\s*\(\s*\)", self.m[semi + u.end():])
+            e0 = s0 + ml.end()
+            self.rewrite(e0, e0, "{ let mut vx_fm = ", "R3-filter-map-collect")
+            self.rewrite(bo + h.start(), bs, ";\n  let mut vx_out = Vec::new();/*@pre*/\n  loop\n  /*@loop*/\n  {\n    let Some(%s) = vx_fm.next() else { break; };/*@body*/\n    let vx_e = " % p, "R3-filter-map-collect")
+            self.rewrite(be, close + 1, ";\n    if let Some(vx_x) = vx_e { vx_out.push(vx_x); }/*@tail*/\n  }\n  vx_out }", "R3-filter-map-collect")
+            self.rewrite(semi + u.end(), semi + u.end() + mcol.end(), "", "R3-filter-map-collect (lazy: collected where bound)")
+            return
+        cend = close + 1 + mc.end()
         self.rewrite(s0, s0, "{ let mut vx_fm = ", "R3-filter-map-collect")
         self.rewrite(bo + h.start(), bs, ";\n  let mut vx_out = Vec::new();/*@pre*/\n  loop\n  /*@loop*/\n  {\n    let Some(%s) = vx_fm.next() else { break; };/*@body*/\n    let vx_e = " % p, "R3-filter-map-collect")
         self.rewrite(be, cend, ";\n    if let Some(vx_x) = vx_e { vx_out.push(vx_x); }\n  }\n  vx_out }", "R3-filter-map-collect")
